@@ -85,6 +85,8 @@ THEOREMS = [
     "Lena.C19.getTemplate_current",
     "Lena.C19.run_independent_of_previous_runs",
     "Lena.C19.object_history_eq_fresh",
+    "Lena.C19.write_not_writable_passes",
+    "Lena.C19.write_writer_changed",
 ]
 CASE_TIMEOUT = 20
 
@@ -510,7 +512,20 @@ def _world_setup(env, world):
     return stamps
 
 
+class _Writer(object):
+    """a data object with a method write(filepath)"""
+
+    def __init__(self, text):
+        self.text = text
+
+    def write(self, path):
+        with open(path, "w") as f:
+            f.write(self.text)
+
+
 def _data_of(env, d):
+    if "writer" in d:
+        return _Writer(env.enc(d["writer"]))
     if "text" in d:
         return env.enc(d["text"])
     if "path" in d:
@@ -527,6 +542,9 @@ def _run_stage(case):
         except Exception as e:
             return {"e": exc_name(e), "phase": "init"}
         ctx = {} if case["name"] is None else {"name": case["name"]}
+        if case.get("static") is not None:
+            # static context (set by a Sequence): formatting uses it, the run-time context takes precedence
+            el._set_context({"name": case["static"]})
         o = {k: v for k, v in (case["out"] or {}).items() if v is not None}
         if o or case.get("empty_output"):
             ctx["output"] = o
@@ -554,6 +572,26 @@ def _run_stage(case):
         except Exception as e:
             return {"e": exc_name(e)}
         return {"mode": "eu" if w._existing_unchanged else ("ow" if w._overwrite else "normal")}
+    if op == "render":
+        env = _Env()
+        try:
+            env.set_template("group" if case["group"] is not None else "separate", case["tpl"])
+            el = L["output"].RenderLaTeX("t.tex", template_dir=os.path.join(env.base, "tpl"), verbose=2)
+            ctx = _ctx_of_out(env, case["out"])
+            if case["group"] is not None:
+                ctx["group"] = [_ctx_of_out(env, g) for g in case["group"]]
+            val = (_data_of(env, case["data"]), ctx)
+            res = list(el.run(iter([val])))
+            x = _val(env, res[0])
+            if res[0] is val:
+                x["passed"] = True
+            elif isinstance(res[0][0], str):
+                x["data"] = {"text": env.dec(res[0][0])}
+            return {"vals": [x]}
+        except Exception as e:
+            return {"e": exc_name(e)}
+        finally:
+            env.close()
     if op == "render2":
         env = _Env()
         try:
@@ -593,6 +631,12 @@ def _run_stage(case):
     try:
         stamps = _world_setup(env, case["world"])
         val = (_data_of(env, case["data"]), _ctx_of_out(env, case["out"]))
+        if case.get("nowrite"):
+            val[1].setdefault("output", {})["write"] = False
+        if "writer" in case["data"]:
+            # Write does not create the directory for an object that writes itself (directories are implicit
+            # in the model)
+            os.makedirs(env.abs(os.path.join(case["outdir"], (case["out"] or {}).get("dirname") or "")), exist_ok=True)
         _State.log = []
         try:
             if op == "write":
@@ -607,7 +651,13 @@ def _run_stage(case):
                 res = list(el.run(iter([val])))
         except Exception as e:
             return {"e": exc_name(e)}
-        return {"files": _snapshot(env, stamps), "log": env.take_log(), "vals": [_val(env, v) for v in res]}
+        vals = []
+        for v in res:
+            x = _val(env, v)
+            if v is val:
+                x["passed"] = True       # the element yielded the very value it received
+            vals.append(x)
+        return {"files": _snapshot(env, stamps), "log": env.take_log(), "vals": vals}
     finally:
         env.close()
 
@@ -638,6 +688,8 @@ def model_requests(case):
         return [{"op": "hist", "reuse": bool(case.get("reuse")), "watch": [], "steps": steps}]
     if op in ("write", "latex", "png"):
         return [dict(case, watch=sorted(f["p"] for f in case["world"]["files"]))]
+    if op == "mf" and case.get("static") is not None and case["name"] is None:
+        return [dict(case, name=case["static"])]     # full_context = static context updated with the value's context
     return [case]
 
 
@@ -647,7 +699,16 @@ def _norm_out(o):
 
 def _norm_val(v):
     g = v.get("group")
-    return {"data": v["data"], "out": _norm_out(v["out"]), "group": None if g is None else [_norm_out(x) for x in g]}
+    return {"data": "passed unchanged" if v.get("passed") else v["data"], "out": _norm_out(v["out"]),
+            "group": None if g is None else [_norm_out(x) for x in g]}
+
+
+def _mark_passed(case, m):
+    """model side of `passed`: the value left the element with the data it came with"""
+    for v in m.get("vals", []):
+        if v["data"] == case["data"]:
+            v["passed"] = True
+    return m
 
 
 def _norm_run(r):
@@ -673,7 +734,13 @@ def compare(case, res, replies):
                     return f"run {i}: impl {jdump(x)[:700]} vs model {jdump(y)[:700]}"
         return None
     if op in ("write", "latex", "png"):
-        a, b = _norm_run(res), _norm_run(m)
+        a, b = _norm_run(res), _norm_run(_mark_passed(case, m))
+        return None if a == b else f"impl {jdump(a)[:700]} vs model {jdump(b)[:700]}"
+    if op == "render":
+        if "e" in res:
+            return f"impl raised {res}"
+        a = [_norm_val(v) for v in res["vals"]]
+        b = [_norm_val(v) for v in _mark_passed(case, m)["vals"]]
         return None if a == b else f"impl {jdump(a)[:700]} vs model {jdump(b)[:700]}"
     if op == "mf":
         if "e" in res or "e" in m:
@@ -767,7 +834,7 @@ def _oracle_stage(case, res):
             return None
         if "e" in res:
             return f"MakeFilename({a}) raised {res}"
-        ref = _ref_make_filename(a, case["name"], case["out"])
+        ref = _ref_make_filename(a, case["name"] if case["name"] is not None else case.get("static"), case["out"])
         got = _norm_out(res["out"])
         if got != ref:
             return f"MakeFilename({a}) on name={case['name']!r} output={case['out']}: got {got}, naming rules give {ref}"
@@ -794,6 +861,17 @@ def _oracle_stage(case, res):
         if case["eu"] and case["ow"]:
             return None if res.get("e") == "LenaValueError" else f"both options must raise LenaValueError, got {res}"
         return None if "e" not in res else f"Write(...) raised {res}"
+    if op == "render":
+        if "e" in res:
+            return f"RenderLaTeX raised {res}"
+        v = res["vals"][0]
+        if (case["out"] or {}).get("filetype") != "csv":
+            return None if v.get("passed") else f"RenderLaTeX changed a value that is not csv: {v}"
+        deps = [g.get("filepath") for g in case["group"]] if case["group"] is not None else [case["out"].get("filepath")]
+        want = {"tex": case["tpl"], "deps": [p for p in deps if p is not None]}
+        if v["data"] != {"text": want} or v["out"]["filetype"] != "tex" or v["out"]["fileext"] != "tex":
+            return f"RenderLaTeX: rendered {v['data']} / {v['out']}, the template and context give {want}"
+        return None
     if op == "render2":
         if "e" in res:
             return f"RenderLaTeX raised {res}"
@@ -835,8 +913,13 @@ def _oracle_stage(case, res):
         d = case["data"]
         v = res["vals"][0]
         path = v["out"]["filepath"]
-        if "many" in d:
+        if "many" in d or case.get("nowrite"):
+            # "If context.output.write is False a value will not be written. Not written values pass unchanged."
+            if not v.get("passed") or any(f["w"] for f in files.values()):
+                return f"Write: a value that is not to be written did not pass unchanged ({v['data']}, files {files})"
             return None
+        if "writer" in d:
+            d = {"text": d["writer"]}
         want = d["text"] if "text" in d else {"raw": d["path"]}
         o = case["out"] or {}
         fe = o.get("fileext") if o.get("fileext") is not None else (o.get("filetype") if o.get("filetype") is not None else "txt")
@@ -849,6 +932,11 @@ def _oracle_stage(case, res):
         cout = v["out"]["changed"]
         old = pre.get(ref)
         mode = case["mode"]
+        if "writer" in case["data"]:
+            # written by the object's own method: always (re)written, always changed
+            if files[ref]["c"] != want or cout is not True:
+                return f"Write: an object with a write method: {ref} holds {files[ref]['c']}, output.changed={cout!r}"
+            return None
         if True:
             if mode == "eu" and old is not None:
                 if files[ref]["c"] != old["c"] or files[ref]["w"]:
@@ -1210,11 +1298,16 @@ def _stage_cases():
         for exists in (None, A, B, {"raw": "other"}):
             for cin in (None, True, False):
                 for dn in (None, "d"):
-                    for data in ({"text": A}, {"path": f"{OUT}/{'d/' if dn else ''}f.csv"}, {"path": "elsewhere/f.csv"}):
+                    for data in ({"text": A}, {"path": f"{OUT}/{'d/' if dn else ''}f.csv"}, {"path": "elsewhere/f.csv"},
+                                 {"writer": A}, {"many": ["x", "y"]}):
                         path = f"{OUT}/{'d/' if dn else ''}f.csv"
                         world = {"files": [] if exists is None else [{"p": path, "c": exists, "m": 5}], "clock": 9}
-                        cases.append({"op": "write", "outdir": OUT, "mode": mode, "world": world, "data": data,
-                                      "out": {"filename": "f", "filetype": "csv", "dirname": dn, "changed": cin}})
+                        for nowrite in (False, True):
+                            if nowrite and dn:
+                                continue
+                            cases.append({"op": "write", "outdir": OUT, "mode": mode, "world": world, "data": data,
+                                          "nowrite": nowrite,
+                                          "out": {"filename": "f", "filetype": "csv", "dirname": dn, "changed": cin}})
     # LaTeXToPDF.run on one value
     T = {"tex": 1, "deps": [f"{OUT}/f.csv"]}
     P = {"pdf": [T, [B]]}
@@ -1250,6 +1343,19 @@ def _stage_cases():
                             cases.append({"op": "png", "overwrite": ow, "format": fmt, "world": {"files": fs, "clock": 9},
                                           "data": {"path": f"{OUT}/f.pdf"},
                                           "out": {"filetype": ft, "fileext": "tex", "filename": "f", "changed": cin}})
+    # RenderLaTeX.run on one value: selected (csv) values are rendered, all others pass unchanged
+    for ft in ("csv", "tex", "pdf", None):
+        for grp in (None, [{"filepath": f"{OUT}/a.csv"}, {"filepath": f"{OUT}/b.csv"}], [{"filepath": f"{OUT}/a.csv"}]):
+            for tpl in (1, 2):
+                for cin in (None, True):
+                    cases.append({"op": "render", "tpl": tpl, "data": {"path": f"{OUT}/f.csv"}, "group": grp,
+                                  "out": {"filetype": ft, "filepath": f"{OUT}/f.csv", "filename": "f", "changed": cin}})
+    # MakeFilename with a static context
+    for fn in ([None], ["a_", None]):
+        for name in (None, "n"):
+            for static in ("s", None):
+                for o in ({}, {"filename": "old"}):
+                    cases.append({"op": "mf", "args": dict(STD_MF, filename=fn), "name": name, "static": static, "out": o})
     # one RenderLaTeX object, the template file in a sequence of states (content, modification time)
     states = [(t, m) for t in (1, 2) for m in (1, 2, 3)]
     for n in (2, 3):
